@@ -765,6 +765,15 @@ class MeshRegion:
             (equilibrium.Rmax + equilibrium.Rmin) / 2,
             (equilibrium.Zmax + equilibrium.Zmin) / 2,
         )
+        if not (numpy.isfinite(p0.R) and numpy.isfinite(p0.Z)):
+            # Equilibrium is not defined on a finite box (e.g. TORPEX field calculated
+            # from coils has infinite Rmin, Rmax, Zmin, Zmax): use the centre of the
+            # bounding box of the wall instead.
+            wall = equilibrium.closed_wallarray
+            p0 = Point2D(
+                (wall[:, 0].max() + wall[:, 0].min()) / 2,
+                (wall[:, 1].max() + wall[:, 1].min()) / 2,
+            )
 
         for i in range(self.nx):
             for j in range(self.ny):
